@@ -371,8 +371,9 @@ Definition monitor_step (delay : Z) (m : ms) (o : op) (ob : obs) : Z * ms :=
         | OSetInSync b => (0, set_insync m b)
         | ORestart =>
             (* the node forgets announcements and the bodies of transactions it does not track; what it
-               delivered stays delivered *)
-            (0, MS (reload_pool m) (m_delivered m) (m_live m) (m_seen m) (m_vouched m) (m_conflicted m)
+               delivered stays delivered.  128 (C07 / C11): the restarted node's tracked set does not carry the
+               first-seen times that were saved (to the stored precision, a millisecond) *)
+            ((if c =? OK then 0 else 128), MS (reload_pool m) (m_delivered m) (m_live m) (m_seen m) (m_vouched m) (m_conflicted m)
                    (m_unsafe m) (m_safe m) (m_local m) (m_clock m) false (m_chain m) (m_vpersist m) (m_vpersist m)
                    (m_proofs m) (m_body m))
         | OGetTx t => ((if mem t (m_delivered m) && negb (c =? OK) then 171 else 0), m)  (* C11: stored copy *)
